@@ -147,6 +147,31 @@ def check(repo):
                                qual, subj, subj, "a result" if F.cfg.nodes[nid].kind == "return" else "the end of the function", describe_alt(alt)))
             else:
                 r4.ok({"function": qual, "subject": subj, "declared": decl})
+    # the constructor refuses nothing but lengths that cannot be declared, and leaves the declared lengths as they were declared
+    init = repo.func(AES, "AESxCBC.__init__")
+    from ..facts import facts_of as _facts_of
+    allowed = set()
+    for subj, decl in (("key_length", "[16, 24, 32]"), ("cipher_length", "% 16")):
+        refused, _bad, _F, _what = guard_contract(init, subj, decl)
+        allowed |= {getattr(x, "id", x) for x in refused}
+    Fi = _facts_of(init)
+    extra = [n for n, _name, _f in Fi.raises() if getattr(n, "id", n) not in allowed]
+    if extra:
+        n0 = extra[0]
+        node0 = n0 if hasattr(n0, "stmt") else Fi.cfg.nodes[n0]
+        r4.fail_fn(init, node0.stmt, "constructor refuses a declarable configuration",
+                   "AESxCBC.__init__ raises on a path that is neither `key_length not in {16, 24, 32}` nor `cipher_length %% 16 != 0` (line %d): declared lengths the property admits "
+                   "(any message length, with the cipher length that Encrypt really produces) are refused" % node0.line)
+    else:
+        r4.ok({"function": "AESxCBC.__init__", "rule": "no refusal besides the two length contracts"})
+    for st in ast.walk(init.node):
+        tg = st.targets if isinstance(st, ast.Assign) else ([st.target] if isinstance(st, (ast.AugAssign, ast.AnnAssign)) else [])
+        for t in tg:
+            if isinstance(t, ast.Attribute) and isinstance(t.value, ast.Name) and t.value.id == "self" and t.attr in ("key_length", "message_length", "cipher_length"):
+                same = isinstance(st, ast.Assign) and isinstance(st.value, ast.Name) and st.value.id in init.params and st.value.id == t.attr
+                r4.require(same, init, "declared %s kept" % t.attr,
+                           "AESxCBC.__init__ replaces the declared %s by %s: Encrypt / Decrypt then enforce a length the caller did not declare (the ciphertext of an m-byte message "
+                           "has 16 + 16 * (m // 16 + 1) bytes)" % (t.attr, short(getattr(st, "value", st))), st)
     kg = repo.func(AES, "AESxCBC.KeyGen")
     rets = [ps.ret for ps in summarize(kg) if ps.exc is None]
     r4.require(bool(rets) and all(rt == ("call", ("fn", "os.urandom"), (("attr", ("var", "self"), "key_length"),), ()) for rt in rets), kg, "KeyGen length",
